@@ -11,6 +11,7 @@
 import json, os
 import vlib
 from vlib import Check, Broken, log
+from checks import session_common
 
 
 def run(tier):
@@ -88,7 +89,17 @@ def run(tier):
             raise Broken("vacuous: profile %s never completed successfully" % p)
         if b == 0:
             raise Broken("vacuous: profile %s never failed" % p)
-    ck.cov["traces_validated_against_impl"] = len(recs)
+    # cross-module sessions (Session.tla): calculators interleaved with Db edits, copies, save + reload
+    ss = session_common.run_sessions(ck, tier)
+    for rec, fails, ses in ss["rejected"]:
+        ck.disagree({"kind": "session-step", "op": rec["op"], "fails": fails, "history": [h["op"]["name"] for h in ses["hist"]]},
+                    {"session": [h["op"]["name"] for h in ses["hist"]], "record": rec})
+    for ses, last in ss["crashes"]:
+        ck.disagree({"kind": "session-crash", "op": last["session"]["op"]}, {"session": [h["op"]["name"] for h in ses["hist"]], "at": last})
+    ck.cov["session_steps_judged"] = ss["steps"]
+    ck.cov["sessions"] = ss["sessions"]
+    ck.cov["states"] += ss["states"]; ck.cov["transitions"] += ss["transitions"]
+    ck.cov["traces_validated_against_impl"] = len(recs) + ss["steps"]
     ck.cov["calls_ok"] = nok
     ck.cov["calls_failed"] = nfail
     ck.cov["scenarios"] = len(scen)
